@@ -35,6 +35,20 @@ TYPED = ("created", "modified")
 EMPTY_CORE = ('<?xml version="1.0" encoding="UTF-8" standalone="yes"?>\n<cp:coreProperties xmlns:cp="%s" xmlns:dc="%s" '
               'xmlns:dcterms="%s" xmlns:xsi="%s"/>' % (CP, DC, DCT, XSI)).encode()
 
+# a core-properties part as ANOTHER producer may write it (all of it allowed by opc-coreProperties.xsd): children in a different order,
+# xml:lang on the Dublin Core elements, cp:keywords as mixed content with language-tagged cp:value children (the example of ISO/IEC
+# 29500-2), comments and insignificant white space between the children, every date property present
+FOREIGN_CORE = ('<?xml version="1.0" encoding="UTF-8" standalone="yes"?>\n<cp:coreProperties xmlns:cp="%s" xmlns:dc="%s" '
+                'xmlns:dcterms="%s" xmlns:xsi="%s">\n  <!-- written by another producer -->\n'
+                '  <dcterms:modified xsi:type="dcterms:W3CDTF">2019-03-09T08:00:00Z</dcterms:modified>\n'
+                '  <cp:keywords xml:lang="en-US">color <cp:value xml:lang="en-GB">colour</cp:value>'
+                '<cp:value xml:lang="fr-FR">couleur</cp:value></cp:keywords>\n'
+                '  <dc:title xml:lang="en-US">Colour chart</dc:title>\n  <dc:creator>Alice</dc:creator>\n'
+                '  <cp:lastPrinted>2019-03-08T23:15:02Z</cp:lastPrinted>\n  <cp:revision>3</cp:revision>\n'
+                '  <dcterms:created xsi:type="dcterms:W3CDTF">2019-03-08T23:15:02Z</dcterms:created>\n'
+                '  <dc:description xml:lang="en-GB"/>\n  <cp:lastModifiedBy>Bob</cp:lastModifiedBy>\n'
+                '</cp:coreProperties>' % (CP, DC, DCT, XSI)).encode()
+
 # --------------------------------------------------------------------------------------------
 # text: class sequences <-> concrete strings.  The representative of class c at absolute position i is REPS[c][i % len];
 # a string projects to its class runs only if it is exactly the concretisation of those runs (else opaque class 9), so
@@ -189,6 +203,8 @@ def init_bytes(kind: str) -> bytes:
             _INIT[kind] = tpl
         elif kind == "empty":
             _INIT[kind] = rewrite_zip(tpl, lambda n, b: EMPTY_CORE if n == CORE_NAME else b)
+        elif kind == "foreign":
+            _INIT[kind] = rewrite_zip(tpl, lambda n, b: FOREIGN_CORE if n == CORE_NAME else b)
         elif kind == "absent":
             def edit(n, b):
                 if n == CORE_NAME:
